@@ -7,6 +7,7 @@
 //! the harness only projects real results into the vocabulary of the specs.
 
 mod util;
+mod variation;
 mod plushy;
 mod proj;
 mod stack;
@@ -25,6 +26,9 @@ fn main() {
         "stack-trace" => stack::trace(rest),
         "plushy-replay" => plushy::replay(rest),
         "plushy-trace" => plushy::trace(rest),
+        "var-replay" => variation::replay(rest),
+        "var-trace" => variation::trace(rest),
+        "var-segments" => variation::segments(rest),
         "vm-step-replay" => vm::step_replay(rest),
         "vm-run-replay" => vm::run_replay(rest),
         "vm-trace" => vm::trace(rest),
